@@ -355,6 +355,33 @@ def run(ctx: Ctx) -> int:
             ctx.violation({"invariant": dd.split(":")[0], "detail": dd, "origin": origin, "key": f"derived:{dd.split(':')[0]}:zope{zi}"})
         traces.append(trace_of(b["rec"]))
         origins.append({"family": "zope", "shape": f"zope{zi}"})
+    # ---- the hand-written seams of C01 are projects too: the tree they leave behind is judged like any other
+    import os
+    from .. import adversarial, adversarial2, adversarial3, adversarial4
+    heavy = {"flat-sum-5000", "attribute-chain-3000", "unary-minus-2000", "import-chain-150", "long-docstring-200k", "nested-parens-150", "nested-lists-90"}
+    adv_n = 0
+    for c in adversarial.cases() + adversarial2.cases2() + adversarial3.cases3() + adversarial4.cases4():
+        if c["name"] in heavy:
+            continue
+        d = ctx.scratch / f"adv_{adv_n}"
+        adv_n += 1
+        for rel, content in c["files"].items():
+            f = d / rel
+            f.parent.mkdir(parents=True, exist_ok=True)
+            if isinstance(content, dict) and "symlink" in content:
+                os.symlink(content["symlink"], f)
+            elif isinstance(content, str):
+                f.write_text(content, encoding="utf-8", errors="surrogateescape")
+            else:
+                f.write_bytes(bytes(content))
+        b = P.build_sources(paths=[d / r for r in c["roots"]])
+        origin = {"family": "adversarial", "shape": c["name"]}
+        if b["crashed"]:
+            continue                    # an aborted analysis is C01's verdict, not a tree to judge
+        judge_events(ctx, b["rec"].events, origin)
+        for dd in P.derived_relations(b["system"], b["msgs"]):
+            ctx.violation({"invariant": dd.split(":")[0], "detail": dd, "origin": origin, "key": f"derived:{dd.split(':')[0]}:adv:{c['name']}"})
+    ctx.extra["adversarial_projects_judged"] = adv_n
     nrand = 40 if ctx.quick else 400
     for i in range(nrand):
         src = pygen.gen_module(rng, depth=3, max_stmts=4)
